@@ -6,6 +6,9 @@ the peptide->protein map list shared between methods, which evidence files a met
 inference function, the identifier rule of the digest vs the one of the annotations, the file name per method, the
 annotation columns of the written table.
 
+Input files carry random names (sub-directories, one file name in several directories) and are mentioned on the command line
+in random, mostly non-alphabetical order (case["names"]); a file may be mentioned twice.  The model takes files by position.
+
 The real run is observed from outside (recorders of harness/pipeline.py, re-installed here around EVERY method's
 `get_protein_group_results` call — pipeline.py itself is not touched): shuffles, min-cut answers, float scores per
 competition, the float rescue cutoff, md5 keys; additionally the peptide list and the three scalar arguments each call
@@ -51,9 +54,13 @@ ANN_HEADERS = ["Protein names", "Gene names", "Fasta headers"]
 FLAG_OF_INPUT = {"mq": "--mq_evidence", "perc": "--perc_evidence"}
 DIG_FLAGS = [("enzyme", "--enzyme"), ("digestion", "--digestion"), ("min_length", "--min-length"), ("max_length", "--max-length"),
              ("cleavages", "--cleavages"), ("special_aas", "--special-aas")]
-# protein-group thresholds (subset of pipeline.THRESHOLDS: no reachable estimate (D+1)/(T+1) rounds onto them, or dyadic), weighted
+# protein-group thresholds (the values of pipeline.THRESHOLDS: no reachable estimate (D+1)/(T+1) rounds onto them, or dyadic), weighted
 # towards values that split the first-pass q-values of small data sets, so that the PSM level cannot stand in for them
-CLI_THRESHOLDS = [0.0101, 0.2001, 0.2001, 0.25, 0.25, 0.5, 0.5, 1.0]
+CLI_THRESHOLDS = [0.0101, 0.0503, 0.2001, 0.2001, 0.25, 0.25, 0.5, 0.5, 1.0]
+assert set(CLI_THRESHOLDS) == set(pl.THRESHOLDS)
+# PSM-level FDR values of --psm_fdr_cutoff (0.01 is the default of the tool: only the other values show whether the
+# command line's value arrives); drawn independently of the protein-group threshold and of --keep_all_proteins
+CLI_PSM_LEVELS = [0.01, 0.05, 0.0011, 0.2]
 DIG_DEFAULTS = {"enzyme": "trypsin", "digestion": "full", "min_length": 7, "max_length": 60, "cleavages": 2, "special_aas": "KR"}
 
 
@@ -278,7 +285,7 @@ def gen_case(rng, tier, only_inputs=("mq", "perc")):
     else:
         fasta = [gen_cli.fasta_text(recs, rng)]
     case = {"kind": "cli_model", "fasta": fasta, "flags": dict(flags, **dig_flags), "methods": methods, "evidence": {},
-            "thr": rat(rng.choice(CLI_THRESHOLDS)), "psm": rat(rng.choice([0.01, 0.01, 0.05, 0.0011])), "keepAll": rng.random() < 0.3,
+            "thr": rat(rng.choice(CLI_THRESHOLDS)), "psm": rat(rng.choice(CLI_PSM_LEVELS)), "keepAll": rng.random() < 0.3,
             "psets": psets}
     use_pseudo = falls_back_to_pseudo_genes(case)
     rule = id_rule(flags, use_pseudo)
@@ -316,7 +323,59 @@ def gen_case(rng, tier, only_inputs=("mq", "perc")):
             rng.shuffle(rows)
             files.append(rows)
         case["evidence"][inp] = files
+    # --- file names and their order on the command line (the tool must pair the i-th file MENTIONED with the i-th
+    # parameter set, whatever the files are called); 10 % of the multi-file inputs mention one file twice
+    names = {"fasta": gen_cli.file_names(rng, len(fasta), "fasta")}
+    if len(fasta) == 1 and rng.random() < DUP_FASTA_SHARE:
+        case["fasta"] = fasta = [fasta[0], list(fasta[0])]
+        names["fasta"] = names["fasta"] * 2
+    for inp in inputs:
+        files = case["evidence"][inp]
+        nm = gen_cli.file_names(rng, len(files), inp)
+        if len(files) >= 2 and rng.random() < 0.1:
+            src, dst = rng.sample(range(len(files)), 2)
+            nm[dst] = nm[src]
+            files[dst] = [dict(r) for r in files[src]]
+        names[inp] = nm
+    case["names"] = names
     return case
+
+
+DUP_FASTA_SHARE = 0.05
+
+
+def sync_mentions(case):
+    """a file mentioned twice is ONE file: every later mention of a name carries the rows / lines of the first"""
+    names = case.get("names")
+    if not names:
+        return case
+    out = dict(case, evidence=dict(case["evidence"]))
+    for key in names:
+        if key != "fasta" and key not in case["evidence"]:
+            continue
+        files = list(case["fasta"] if key == "fasta" else case["evidence"][key])
+        nm = names[key]
+        if len(nm) != len(files):
+            return dict(case, names=None)
+        first = {}
+        for i, n in enumerate(nm):
+            if n in first:
+                files[i] = files[first[n]]
+            else:
+                first[n] = i
+        if key == "fasta":
+            out["fasta"] = files
+        elif key in case["evidence"]:
+            out["evidence"][key] = files
+    return out
+
+
+def input_names(case, key, n):
+    """relative paths of the n files of one input, in command-line order (cases without names: the numbered names)"""
+    names = (case.get("names") or {}).get(key)
+    if names and len(names) == n:
+        return list(names)
+    return [{"fasta": "db%d.fasta", "mq": "evidence%d.txt", "perc": "pout%d.txt"}[key] % i for i in range(n)]
 
 
 def _row(rng, inp, pep, prots, grid):
@@ -339,30 +398,38 @@ def render(case, d):
     """writes the input files into directory d; returns argv"""
     argv = []
     fastas = []
-    for i, lines in enumerate(case["fasta"]):
-        p = os.path.join(d, "db%d.fasta" % i)
-        with open(p, "w", newline="") as fh:
-            fh.write("".join(lines))
-        fastas.append(p)
+    ind = os.path.join(d, "in")
+    written = {}
+
+    def put(key, rel, content, writer):
+        # a name mentioned twice is one file; the case must agree with itself about its content (sync_mentions)
+        if written.setdefault((key, rel), content) != content:
+            raise ValueError("harness: file %s is mentioned twice with different content" % rel)
+        return gen_cli.write_once(ind, key + "/" + rel, writer)
+
+    for rel, lines in zip(input_names(case, "fasta", len(case["fasta"])), case["fasta"]):
+        def wf(p, lines=lines):
+            with open(p, "w", newline="") as fh:
+                fh.write("".join(lines))
+        fastas.append(put("fasta", rel, lines, wf))
     if fastas:
         argv += ["--fasta"] + fastas
     for inp, files in case["evidence"].items():
         paths = []
-        for n, rows in enumerate(files):
+        for rel, rows in zip(input_names(case, inp, len(files)), files):
             if inp == "mq":
                 hdr = ["Modified sequence", "Leading proteins", "Leading razor protein", "PEP", "Score", "Experiment", "id"]
                 out = [[r["pep"], r["prot"][0], r["razor_prot"], _cell(r["score"]), "10", "E1", str(i)] for i, r in enumerate(rows)]
-                name = "evidence%d.txt" % n
             else:
                 hdr = ["PSMId", "score", "q-value", "posterior_error_prob", "peptide", "proteinIds"]
                 out = [["raw_%d_2_1" % i, "1.0", "0.01", _cell(r["score"]), r["pep"]] + list(r["prot"]) for i, r in enumerate(rows)]
-                name = "pout%d.txt" % n
-            p = os.path.join(d, name)
-            with open(p, "w", newline="", encoding="utf-8") as fh:
-                w = csv.writer(fh, delimiter="\t")
-                w.writerow(hdr)
-                w.writerows(out)
-            paths.append(p)
+
+            def we(p, hdr=hdr, out=out):
+                with open(p, "w", newline="", encoding="utf-8") as fh:
+                    w = csv.writer(fh, delimiter="\t")
+                    w.writerow(hdr)
+                    w.writerows(out)
+            paths.append(put(inp, rel, rows, we))
         argv += [FLAG_OF_INPUT[inp]] + paths
     argv += ["--methods", ",".join(case["methods"])]
     argv += ["--protein_group_fdr_threshold", repr(pl.fl(case["thr"])), "--psm_fdr_cutoff", repr(pl.fl(case["psm"]))]
@@ -853,6 +920,59 @@ def oracle(case, impl_out):
     return None
 
 
+def written_rows(text):
+    """the rows of a written table as the nine-field records harness/pipeline.py states its properties on"""
+    hdr, rows = read_table(text)
+    if hdr[: len(BASE_HEADERS)] != BASE_HEADERS:
+        return None
+    out = []
+    for r in rows:
+        d = dict(zip(pl.ROW_FIELDS, r[: len(pl.ROW_FIELDS)]))
+        d["numberOfProteins"] = int(d["numberOfProteins"])
+        d["qValue"], d["score"] = rat(float(d["qValue"])), rat(float(d["score"]))
+        out.append(d)
+    return out
+
+
+def command_line_like(case, name, rec, text):
+    """(case, impl_out) in the shape the single-call property statements of harness/pipeline.py take, for what the USER
+    of the command line sees: the thresholds are the ones GIVEN ON THE COMMAND LINE (not the ones the glue handed to the
+    inference call), the rows are the ones read back from the WRITTEN table (not the returned objects); groups, evidence
+    and cutoff of each pass are the observed ones"""
+    c = {"kind": "pipeline", "method": name, "pil": rec["pil"], "thr": case["thr"], "psm": case["psm"], "keepAll": bool(case["keepAll"])}
+    o = {"rows": written_rows(text), "passes": _passes(rec), "_rec": rec}
+    return c, o
+
+
+def statement_oracle(case, impl_out, statements):
+    """the named property statements ("c01", "c06": `oracle_<name>` of harness/pipeline.py) on every table the command
+    line wrote, relative to the command line's own --psm_fdr_cutoff / --protein_group_fdr_threshold / --keep_all_proteins"""
+    if not isinstance(impl_out, dict):
+        return "no result"
+    if "exc" in impl_out:
+        return "the command line %s raised %s: %s" % (describe(case), impl_out["exc"], impl_out.get("msg"))
+    if impl_out["err"] == "no_ranked_groups":
+        return None
+    if impl_out["err"] is not None:
+        return "%s was refused (%s) although every method is shipped and the input is valid" % (describe(case), impl_out["err"])
+    sm = shipped()
+    calls = impl_out["_rec"]["calls"]
+    for name, c in zip(case["methods"], calls):
+        if not case["evidence"].get(input_of(sm[name])):
+            continue
+        if c["gpr"] is None or c["written"] is None:
+            return "method %s (input given) wrote no table" % name
+        pc, po = command_line_like(case, name, c["gpr"], c["written"]["text"])
+        if po["rows"] is None:
+            return "method %s, table %s: header %r" % (name, c["written"]["file"], read_table(c["written"]["text"])[0])
+        for st in statements:
+            o = getattr(pl, "oracle_" + st)(pc, po)
+            if o:
+                return "method %s, written table %s (--psm_fdr_cutoff %r --protein_group_fdr_threshold %r%s): %s" % (
+                    name, c["written"]["file"], pl.fl(case["psm"]), pl.fl(case["thr"]), " --keep_all_proteins" if case["keepAll"] else "", o)
+    return None
+
+
 def _file_proteins(case, t):
     out = set()
     for rows in case["evidence"].get(input_of(t), []):
@@ -877,8 +997,10 @@ def _first_diff(want, got):
 
 def describe(case):
     f = case["flags"]
-    return "--methods %s [%s; %d FASTA file(s); %s; digestion flags %r]" % (
-        ",".join(case["methods"]), ", ".join("%s x%d" % (k, len(v)) for k, v in case["evidence"].items()), len(case["fasta"]),
+    return "--methods %s [%s; --fasta %s; %s; digestion flags %r]" % (
+        ",".join(case["methods"]),
+        ", ".join("%s %s" % (FLAG_OF_INPUT[k], " ".join(input_names(case, k, len(v)))) for k, v in case["evidence"].items()),
+        " ".join(input_names(case, "fasta", len(case["fasta"]))),
         " ".join(k for k in ("contains_decoys", "gene_level", "use_uniprot") if f.get(k)) or "default ids",
         {k: f[k] for k, _ in DIG_FLAGS if f.get(k)})
 
@@ -905,6 +1027,17 @@ def features(case, impl_out):
         f.append("cli_model:pseudo_genes")
     if len(case["fasta"]) > 1:
         f.append("cli_model:two_fasta_files")
+    for key, nm in (case.get("names") or {}).items():
+        if len(nm) > 1:
+            f.append("cli_model:%s_files_in_%s_order" % (key, "alphabetical" if nm == sorted(nm) else "non_alphabetical"))
+            if len(set(nm)) < len(nm):
+                f.append("cli_model:%s_file_mentioned_twice" % key)
+            if len({n.rsplit("/", 1)[-1] for n in set(nm)}) < len(set(nm)):
+                f.append("cli_model:%s_same_file_name_in_different_directories" % key)
+    f.append("cli_model:psm_level=%r" % pl.fl(case["psm"]))
+    f.append("cli_model:protein_threshold=%r" % pl.fl(case["thr"]))
+    if case["keepAll"]:
+        f.append("cli_model:keep_all_proteins")
     if isinstance(impl_out, dict) and "methods" in impl_out:
         f.append("cli_model:err=%s" % impl_out.get("err"))
         f.append("cli_model:tables=%d" % sum(1 for m in impl_out["methods"] if m and m.get("table")))
@@ -918,19 +1051,39 @@ def features(case, impl_out):
     return f
 
 
-def shrink(case):
+def _shrink(case):
     if len(case["methods"]) > 1:
         for i in range(len(case["methods"])):
             yield dict(case, methods=case["methods"][:i] + case["methods"][i + 1:])
+    names = case.get("names") or {}
     for inp, files in case["evidence"].items():
+        nm = names.get(inp)
         if len(files) > 1 and len(case["psets"]) == 1:
             for i in range(len(files)):
-                yield dict(case, evidence=dict(case["evidence"], **{inp: files[:i] + files[i + 1:]}))
+                c = dict(case, evidence=dict(case["evidence"], **{inp: files[:i] + files[i + 1:]}))
+                if nm:
+                    c["names"] = dict(names, **{inp: nm[:i] + nm[i + 1:]})
+                yield c
         for i, rows in enumerate(files):
+            if nm and nm[i] in nm[:i]:
+                continue  # a second mention of a file: its rows follow the first mention
             for j in range(len(rows)):
                 yield dict(case, evidence=dict(case["evidence"], **{inp: files[:i] + [rows[:j] + rows[j + 1:]] + files[i + 1:]}))
     if case["keepAll"]:
         yield dict(case, keepAll=False)
+    if names:
+        # do the names matter?  numbered names in the order of mention (evidence0.txt, evidence1.txt, ...); a file
+        # mentioned twice becomes two files of equal content
+        yield dict(case, names=None)
+        for key, nm in names.items():
+            if len(nm) > 1 and nm != sorted(nm) and len(set(nm)) == len(nm):
+                # the same files given in alphabetical order (files and their parameter sets keep their positions)
+                yield dict(case, names=dict(names, **{key: sorted(nm)}))
+
+
+def shrink(case):
+    for c in _shrink(case):
+        yield sync_mentions(c)
 
 
 # ------------------------------------------------------------------------------------------------
@@ -938,6 +1091,9 @@ def shrink(case):
 # ------------------------------------------------------------------------------------------------
 class CliMixin:
     cli_model_share = 0.03     # fraction of generated cases that run the whole command line against the model
+    cli_oracles = None         # None: the complete oracle of this module (glue statements included); a tuple of names
+    #                            ("c01", "c06"): only those property statements, evaluated by statement_oracle on the
+    #                            written tables against the command line's own thresholds
 
     def gen_case(self, rng, tier):
         if rng.random() < self.cli_model_share:
@@ -968,6 +1124,9 @@ class CliMixin:
 
     def oracle(self, case, impl_out):
         if isinstance(case, dict) and case.get("kind") == "cli_model":
+            if self.cli_oracles is not None:
+                o = statement_oracle(case, impl_out, self.cli_oracles)
+                return None if o is None else "command line %s: %s" % (describe(case), o)
             o = oracle(case, impl_out)
             return None if o is None else "command line vs glue model: " + o
         return super().oracle(case, impl_out)
